@@ -197,7 +197,7 @@ func runWire(wc *wireCase) (wireObs, []failure) {
 	if out.Alloc > b {
 		fails = append(fails, failure{"alloc", fmt.Sprintf("%s allocated %d bytes after %d bytes were received (bound %d)", what, out.Alloc, mc.pos, b)})
 	}
-	if out.Dur > 2*time.Second {
+	if out.Dur > 3*time.Second {
 		fails = append(fails, failure{"slow", fmt.Sprintf("%s ran %v on a %d-byte connection", what, out.Dur, len(data))})
 	}
 	if mc.maxDepth > 120 {
@@ -302,11 +302,14 @@ func genWire(c *core.Ctx) {
 					supplies = append(supplies, 16)
 				}
 				for _, sup := range supplies {
-					if quick && n >= maxMsg-1 && sup > 0 && sup < int(n) && (op != "frame" || flag != 1) {
-						continue
-					}
-					if quick && n >= maxMsg-1 && sup == int(n) && flag != 1 {
-						continue
+					if quick && n >= maxMsg-1 && sup > 16 {
+						// MiB-sized payloads are costly on the model side: keep three of them
+						keep := (op == "frame" && flag == 1 && n == maxMsg && sup == int(n)) ||
+							(op == "complete" && flag == 1 && n == maxMsg-1 && sup == int(n)) ||
+							(op == "frame0" && flag == 1 && n == maxMsg && sup == int(n)-1)
+						if !keep {
+							continue
+						}
 					}
 					ss := []seg{{Lit: hdr(flag, n)}}
 					if sup > 64 {
@@ -586,7 +589,7 @@ func genBlobs(c *core.Ctx) {
 	blobs = append(blobs, append(append([]byte(nil), good...), 1, 2, 3), append(append([]byte(nil), good...), make([]byte, 70000)...))
 	n := 25
 	if !c.Quick() {
-		n = 400
+		n = 150
 	}
 	for i := 0; i < n; i++ {
 		x := append([]byte(nil), good...)
